@@ -88,6 +88,7 @@ pub struct CaseReport {
     pub rows: usize,
     pub violations: Vec<(String, String, Value)>,
     pub machinery: Vec<String>,
+    pub wall_s: f64,
     pub key: u64,
 }
 
@@ -119,6 +120,13 @@ fn case_key(c: &GCase) -> u64 {
 }
 
 pub fn run_case(c: &GCase, cache: &ConfirmCache) -> CaseReport {
+    let t0 = std::time::Instant::now();
+    let mut rep = run_case_inner(c, cache);
+    rep.wall_s = t0.elapsed().as_secs_f64();
+    rep
+}
+
+fn run_case_inner(c: &GCase, cache: &ConfirmCache) -> CaseReport {
     let mut rep = CaseReport { name: c.g.name.clone(), class: c.class.clone(), key: case_key(c), ..Default::default() };
     let inputs_json = json!(c.g.inputs.iter().map(hex).collect::<Vec<_>>());
     let h = match honest(&c.g) {
@@ -197,7 +205,12 @@ pub fn run_case(c: &GCase, cache: &ConfirmCache) -> CaseReport {
         // deviations unconstrained: compare outputs with what they are
         Expect::UnsatHonest => Some(h.outs.clone()),
     };
+    let t_ex = std::time::Instant::now();
     let ex = explore(&c.g, &h, &devs, expected_outs.as_deref());
+    let prof = std::env::var("VERIF_PROFILE").is_ok();
+    if prof {
+        eprintln!("profile-section {} explore {} devs {:.2}s panics={} generr={} sat={} unsat_samples={} must={}", c.g.name, devs.len(), t_ex.elapsed().as_secs_f64(), ex.n_panic, ex.n_generr, ex.n_sat, ex.unsat_samples.len(), ex.must_confirm.len());
+    }
     rep.n_devs = ex.n_devs;
     rep.n_sat = ex.n_sat;
     rep.n_panic = ex.n_panic;
@@ -214,7 +227,12 @@ pub fn run_case(c: &GCase, cache: &ConfirmCache) -> CaseReport {
     }
     // wire-level deviations: one position re-pointed to a fresh witness whose
     // value keeps every row identity satisfied (only the copy constraint breaks)
+    let t_rw = std::time::Instant::now();
     let rex = if c.rewire { Some(explore_rewirings(&h, crate::rows::init_rows())) } else { None };
+    if prof {
+        eprintln!("profile-section {} rewire {:.2}s", c.g.name, t_rw.elapsed().as_secs_f64());
+    }
+    let t_cf = std::time::Instant::now();
     if let Some(rex) = &rex {
         rep.n_rewire = rex.n;
         rep.n_pure_copy_breaks = rex.pure_copy_breaks.len() as u64;
@@ -287,6 +305,9 @@ pub fn run_case(c: &GCase, cache: &ConfirmCache) -> CaseReport {
             }
         }
     }
+    if prof {
+        eprintln!("profile-section {} confirm {:.2}s", c.g.name, t_cf.elapsed().as_secs_f64());
+    }
     rep
 }
 
@@ -297,6 +318,9 @@ pub fn absorb(run: &mut Run, reports: Vec<Result<CaseReport, String>>, names: &[
         match r {
             Err(p) => run.machinery(format!("harness panic in case {}: {}", name, p)),
             Ok(rep) => {
+                if std::env::var("VERIF_PROFILE").is_ok() {
+                    eprintln!("profile {} class={} rows={} devs={} rewire={} confirmed={} wall={:.1}s", rep.name, rep.class, rep.rows, rep.n_devs, rep.n_rewire, rep.confirmed, rep.wall_s);
+                }
                 run.evaluations += 1 + rep.n_devs;
                 run.transitions += 1 + rep.n_devs;
                 run.traces_validated += rep.confirmed;
